@@ -72,11 +72,13 @@ pub fn trigger_strategy() -> impl Strategy<Value = TrigSpec> {
 
 pub fn len_strategy() -> impl Strategy<Value = usize> {
     prop_oneof![
-        2 => Just(0usize),
-        8 => 1usize..120,
-        2 => 990usize..1040,
-        1 => 2040usize..2080,
-        1 => 3060usize..3090,
+        12 => Just(0usize),
+        48 => 1usize..120,
+        12 => 990usize..1040,
+        6 => 2040usize..2080,
+        6 => 3060usize..3090,
+        // around typical buffer sizes (8 KiB, 16 KiB, 64 KiB)
+        1 => prop::sample::select(vec![8192usize - HEADER_LEN, 8193, 16385, 65536 - HEADER_LEN, 65537]),
     ]
 }
 
